@@ -29,7 +29,9 @@ meta["verified_by_me"] = {"ran": "tools/verify_seed.sh %s (unedited suite with t
 meta["checks_run"] = "tools/try_patch.py patch.diff (every registered check on a scratch copy of /repo with the patch applied)"
 flagged = [f for f in flagged if f != "(none)"]
 meta["detected_by_properties"] = flagged
-meta["detected_by_own_property_check"] = prop in flagged
-meta["reports"] = viol[:20]
+own_v = [l for l in viol if l.startswith(prop + " VIOLATION ")]
+meta["detected_by_own_property_check"] = bool(own_v)              # a VIOLATION line, not merely a fail-closed exit
+meta["own_property_fail_closed_only"] = (prop in flagged) and not own_v
+meta["reports"] = (own_v[:6] + [l for l in viol if l not in own_v])[:20]
 json.dump(meta, open(dst + "/meta.json", "w"), indent=1)
 print("archived", dst, "flagged", flagged)
